@@ -1,29 +1,33 @@
 import Tmv.Model.LightSpec
+import Tmv.Props.C07
 /-! Helper lemmas for C09 (core Lean only). -/
 namespace Tmv.Light
 
-theorem commitLightOK_sound {b : LightBlock} (h : commitLightOK b = true) :
-    2 * b.vals.total < 3 * tally b.vals b.signers := by
-  unfold commitLightOK at h
-  have := of_decide_eq_true h
-  omega
+theorem validators_nonneg (v : ValSet) : CommitVerify.NonNeg v.validators := by
+  intro x hx
+  simp only [ValSet.validators, List.mem_map] at hx
+  obtain ⟨p, _, rfl⟩ := hx
+  exact Int.natCast_nonneg _
 
-theorem commitTrusting_sound {tv : ValSet} {u : LightBlock} {l : Fraction}
-    (h : commitTrusting tv u l = .ok ()) :
-    0 < l.den ∧ tv.total * l.num < tally tv u.signers * l.den := by
+/-- from C07's `light_sound` -/
+theorem commitLightOK_sound {sigOK : SigOK} {chain : Nat} {b : LightBlock}
+    (h : commitLightOK sigOK chain b = true) : SignedByOwn sigOK chain b := by
+  unfold commitLightOK at h
+  have h' := eq_of_beq h
+  obtain ⟨_, _, _, _, picks, hnd, hg, hp⟩ :=
+    Props.C07.light_sound sigOK _ _ _ _ _ (validators_nonneg b.vals) h'
+  exact ⟨picks, hnd, hg, hp⟩
+
+/-- from C07's `trusting_sound` -/
+theorem commitTrusting_sound {sigOK : SigOK} {chain : Nat} {tv : ValSet} {u : LightBlock} {l : Fraction}
+    (h : commitTrusting sigOK chain tv u l = .ok ()) : SignedByTrusted sigOK chain tv u l := by
   unfold commitTrusting at h
   split at h
-  · cases h
-  · rename_i hd
-    split at h
-    · cases h
-    · split at h
-      · cases h
-      · split at h
-        · rename_i ht
-          have hpos : 0 < l.den := Nat.pos_of_ne_zero hd
-          exact ⟨hpos, (Nat.div_lt_iff_lt_mul hpos).mp ht⟩
-        · cases h
+  · rename_i hv
+    obtain ⟨hd, _, picks, hnd, hg, hp⟩ :=
+      Props.C07.trusting_sound sigOK _ _ _ _ _ (validators_nonneg tv) hv
+    exact ⟨hd, picks, hnd, hg, hp⟩
+  all_goals cases h
 
 theorem verifyNewHeaderAndVals_sound {u t : LightBlock} {now drift : Int}
     (h : verifyNewHeaderAndVals u t now drift = true) :
@@ -81,11 +85,10 @@ theorem verifyNonAdjacent_sound {cfg : Config} {t u : LightBlock} {now : Int}
           · rename_i hc
             simp at hexp hnew hc
             obtain ⟨a1, a2, a3, a4, a5, a6, a7⟩ := verifyNewHeaderAndVals_sound hnew
-            have htr' : commitTrusting t.vals u cfg.level = .ok () := by
+            have htr' : commitTrusting cfg.sigOK t.hdr.chain t.vals u cfg.level = .ok () := by
               rw [htr]
-            obtain ⟨b1, b2⟩ := commitTrusting_sound htr'
-            exact ⟨a1, a2, a3, a4, a5, a6, a7, commitLightOK_sound hc, Or.inr ⟨hadj, b1, b2⟩,
-              headerExpired_false hexp⟩
+            exact ⟨a1, a2, a3, a4, a5, a6, a7, commitLightOK_sound hc,
+              Or.inr ⟨hadj, commitTrusting_sound htr'⟩, headerExpired_false hexp⟩
 
 theorem verify_sound {cfg : Config} {t u : LightBlock} {now : Int}
     (h : verify cfg t u now = .ok ()) : ValidStep cfg now t u := by
